@@ -285,3 +285,39 @@ def key_subterms(arrs, must_contain=(), index=None, limit=8):
             st.extend(x.children())
         return n
     return sorted(found.values(), key=size)[:limit]
+
+
+def rng_index_injective(ctx):
+    """A-RNG: keys derived from one key with different indices are different keys (split / fold_in are injective in the index)"""
+    from . import ir
+    import z3
+    kk, n_, a, b = z3.Const("inj!k", ir.KeySort), z3.Int("inj!n"), z3.Int("inj!a"), z3.Int("inj!b")
+    sp = ctx.uf("split", [ir.KeySort, z3.IntSort(), z3.IntSort()], ir.KeySort)
+    fi = ctx.uf("fold_in", [ir.KeySort, z3.IntSort()], ir.KeySort)
+    return [z3.ForAll([kk, n_, a, b], z3.Implies(a != b, sp(kk, n_, a) != sp(kk, n_, b))), z3.ForAll([kk, a, b], z3.Implies(a != b, fi(kk, a) != fi(kk, b)))]
+
+
+def rng_ground_injectivity(terms):
+    """Ground instances of A-RNG index-injectivity for the given key terms: two applications of split (fold_in) to the same key (and count) with different indices are different
+    keys.  Cheaper for the solver than the quantified axioms of rng_index_injective; sub-terms are included."""
+    import z3
+    apps, seen, stack = [], set(), [t for t in terms if t is not None]
+    while stack:
+        t = stack.pop()
+        if not z3.is_expr(t) or t.get_id() in seen:
+            continue
+        seen.add(t.get_id())
+        if z3.is_app(t) and t.num_args() > 0 and t.decl().name() in ("split", "fold_in"):
+            apps.append(t)
+        stack.extend(t.children())
+    out = []
+    for a in range(len(apps)):
+        for b in range(a + 1, len(apps)):
+            t1, t2 = apps[a], apps[b]
+            if t1.decl().name() != t2.decl().name():
+                continue
+            if t1.decl().name() == "split" and t1.arg(0).eq(t2.arg(0)) and t1.arg(1).eq(t2.arg(1)):
+                out.append(z3.Implies(t1.arg(2) != t2.arg(2), t1 != t2))
+            if t1.decl().name() == "fold_in" and t1.arg(0).eq(t2.arg(0)):
+                out.append(z3.Implies(t1.arg(1) != t2.arg(1), t1 != t2))
+    return out
